@@ -41,7 +41,7 @@ theorem cget_force (a : NDA (List Rat)) (i : List Nat) (c : Nat) (h : inRange a.
 /-- unpacking a successful non-cumulative directional integral that returns a field -/
 theorem integrate_dir_unpack (f : Fld) (d : String) (g : Fld)
     (h : integrate f (.name d) false = .ok (.field g)) :
-    ∃ ax m', f.mesh.region.dim2index d = .ok ax ∧ sel f.mesh d = .ok m' ∧
+    ∃ ax m', f.mesh.region.dim2index d = .ok ax ∧ f.mesh.ndim ≠ 1 ∧ sel f.mesh d = .ok m' ∧
       removeAt f.data.shape ax = m'.n ∧
       g = { mesh := m', nvdim := f.nvdim,
             data := (scaleBy f.nvdim (f.mesh.cellAt ax) (sumAxis f.nvdim f.data ax)).force [],
@@ -54,7 +54,8 @@ theorem integrate_dir_unpack (f : Fld) (d : String) (g : Fld)
     simp only [Bool.false_eq_true, if_false] at h
     split at h
     · cases h
-    · split at h
+    · rename_i hne1
+      split at h
       · cases h
       · rename_i m' hm'
         split at h
@@ -64,7 +65,7 @@ theorem integrate_dir_unpack (f : Fld) (d : String) (g : Fld)
           injection h with h
           subst h
           obtain ⟨hs, hg⟩ := mkFld_ok _ _ _ _ _ _ _ hg'
-          exact ⟨ax, m', hax, hm', hs, hg⟩
+          exact ⟨ax, m', hax, hne1, hm', hs, hg⟩
 
 theorem cget_cumAxis (nv : Nat) (h : Rat) (a : NDA (List Rat)) (ax : Nat) (i : List Nat) (c : Nat) (hc : c < nv) :
     cget (cumAxis nv h a ax) i c =
@@ -121,9 +122,10 @@ theorem integrate_cum_unpack (f : Fld) (d : String) (r : Res)
 theorem mean_name_unpack (f : Fld) (d : String) (r : Res) (h : mean f (.name d) = .ok r) :
     ∃ ax m', f.mesh.region.dim2index d = .ok ax ∧ sel f.mesh d = .ok m' ∧
       removeAt f.data.shape ax = m'.n ∧
-      r = .field { mesh := m', nvdim := f.nvdim,
-            data := (divBy f.nvdim ((f.data.shape.getD ax 0 : Nat) : Rat) (sumAxis f.nvdim f.data ax)).force [],
-            valid := NDA.const m'.n true, vdims := f.vdims, vmap := f.vmap, unit := f.unit } := by
+      r = .field
+        { mesh := m', nvdim := f.nvdim,
+          data := (divBy f.nvdim ((f.data.shape.getD ax 0 : Nat) : Rat) (sumAxis f.nvdim f.data ax)).force [],
+          valid := NDA.const m'.n true, vdims := f.vdims, vmap := f.vmap, unit := f.unit } := by
   unfold mean at h
   simp only at h
   split at h
@@ -139,5 +141,63 @@ theorem mean_name_unpack (f : Fld) (d : String) (r : Res) (h : mean f (.name d) 
         subst h
         obtain ⟨hs, hg⟩ := mkFld_ok _ _ _ _ _ _ _ hg'
         exact ⟨ax, m', hax, hm', hs, by rw [hg]⟩
+
+/-! ## products over a mesh -/
+
+theorem ratProd_append (xs : List Rat) (y : Rat) : ratProd (xs ++ [y]) = ratProd xs * y := by
+  induction xs with
+  | nil => simp [ratProd]
+  | cons x xs ih => simp only [List.cons_append, ratProd, ih]; ring
+
+theorem natProd_append (xs : List Nat) (y : Nat) : natProd (xs ++ [y]) = natProd xs * y := by
+  induction xs with
+  | nil => simp [natProd]
+  | cons x xs ih => simp only [List.cons_append, natProd, ih]; ring
+
+theorem tab_succ {α} (k : Nat) (f : Nat → α) : tab (k + 1) f = tab k f ++ [f k] := by
+  unfold tab; rw [List.range_succ, List.map_append]; rfl
+
+theorem ratProd_tab_pos (k : Nat) (f : Nat → Rat) (h : ∀ a, a < k → 0 < f a) : 0 < ratProd (tab k f) := by
+  induction k with
+  | zero => simp [tab, ratProd]
+  | succ k ih =>
+    rw [tab_succ, ratProd_append]
+    exact mul_pos (ih fun a ha => h a (by omega)) (h k (by omega))
+
+/-- `Π (e a / n a) · Π n a = Π e a` -/
+theorem prod_cells_count (k : Nat) (e : Nat → Rat) (n : Nat → Nat) (hn : ∀ a, a < k → 0 < n a) :
+    ratProd (tab k fun a => e a / (n a : Rat)) * (natProd (tab k n) : Rat) = ratProd (tab k e) := by
+  induction k with
+  | zero => simp [tab, ratProd, natProd]
+  | succ k ih =>
+    rw [tab_succ, tab_succ, tab_succ, ratProd_append, ratProd_append, natProd_append]
+    have h0 : ((n k : Nat) : Rat) ≠ 0 := by exact_mod_cast (Nat.pos_iff_ne_zero.mp (hn k (by omega)))
+    rw [← ih fun a ha => hn a (by omega)]
+    push_cast
+    field_simp
+
+theorem cell_pos' (m : Mesh) (hm : m.Inv) (a : Nat) (ha : a < m.ndim) : 0 < m.cellAt a := by
+  obtain ⟨⟨_, _, _, _, _, hlt⟩, _, hnpos⟩ := hm
+  unfold Mesh.cellAt Region.edge
+  have : (0 : Rat) < (m.nAt a : Rat) := by exact_mod_cast hnpos a ha
+  exact div_pos (by have := hlt a ha; linarith) this
+
+theorem dV_pos (m : Mesh) (hm : m.Inv) : 0 < dV m := by
+  unfold dV Mesh.cell
+  exact ratProd_tab_pos _ _ fun a ha => cell_pos' m hm a ha
+
+/-- cell volume × number of cells = volume of the region -/
+theorem dV_mul_count (m : Mesh) (hm : m.Inv) : dV m * (natProd m.n : Rat) = ratProd m.region.edges := by
+  obtain ⟨_, hnlen, hnpos⟩ := hm
+  have hn : m.n = tab m.ndim m.nAt := eq_tab_of_getD _ _ _ 0 hnlen fun i _ => rfl
+  have := prod_cells_count m.ndim m.region.edge m.nAt hnpos
+  rw [← hn] at this
+  exact this
+
+theorem cells_cover (m : Mesh) (hm : m.Inv) (a : Nat) (ha : a < m.ndim) :
+    (m.nAt a : Rat) * m.cellAt a = m.region.edge a := by
+  unfold Mesh.cellAt
+  have : (m.nAt a : Rat) ≠ 0 := by exact_mod_cast (Nat.pos_iff_ne_zero.mp (hm.2.2 a ha))
+  field_simp
 
 end DFV.C06
